@@ -9,7 +9,7 @@ props = {}
 for l in open(os.path.join(ROOT, "properties.jsonl")):
     d = json.loads(l); props[d["id"]] = d
 for pid in sys.argv[1:]:
-    p = props[pid]; w = "/tmp/m3-" + pid.lower()
+    p = props[pid]; w = "/tmp/" + os.environ.get("SEED_PREFIX", "m3") + "-" + pid.lower()
     if not os.path.isdir(w):
         subprocess.check_call(["git", "-C", "/repo", "worktree", "add", "-q", "--detach", w, "HEAD"])
     os.makedirs(w + "/_out", exist_ok=True)
